@@ -25,7 +25,7 @@ ASSUMPTIONS = [
     "qchem.tapering._kernel is exercised only the way symmetry_generators calls it (RREF with zero rows removed, "
     "non-zero matrix).",
 ]
-BUDGET = {"quick": {"examples": 1500}, "thorough": {"examples": 60000, "shards": 16}}
+BUDGET = {"quick": {"examples": 2000}, "thorough": {"examples": 60000, "shards": 16}}
 SHRINK_LISTS = ("vecs",)
 BRUTE_SOLVE_MAX = 10
 
